@@ -22,10 +22,13 @@ from vlib.shrink import ddmin
 META = {
     'level_text': 'Theorems for every program of state/cleanup functions (arbitrary functions of the history), every '
                   'sequence of cycle/start/stop and every placement of concurrent requests at the reads of next_task: '
-                  'cycle_calls_bounded, cycle_never_raises, init_flag_exact, cleanup_exactly_once, cleanup_not_interrupted, '
-                  'stop_makes_inactive, last_start_wins, busy_until_finished (see design_notes/C14.md for which are full and '
-                  'which partial).  The model is tied to lib/statemachine.py and states.py by an exhaustive + random '
-                  'correspondence run on the real classes, and the Lean monitors judge every implementation history.',
+                  'cycle_calls_bounded (measure and positional), cycle_never_raises, init_flag_exact, cleanup_exactly_once, '
+                  'cleanup_not_interrupted, stop_makes_inactive, last_start_wins are fully proved from one coupling invariant '
+                  'between the machine and the observer; busy_until_finished is partial (each status assignment of '
+                  'start_machine/stop_machine/state_transition preserves the busy invariant; the fold over histories is stated '
+                  'and monitored) and refuted for a pre-empted start_machine.  The model is tied to lib/statemachine.py and '
+                  'states.py by an exhaustive + random correspondence run on the real classes, and the Lean monitors judge '
+                  'every implementation history.',
     'level_note': 'Trusted: Lean kernel + axioms propext/Classical.choice/Quot.sound; requests of another thread are atomic '
                   'with respect to the mixin (start_machine/stop_machine as a whole) in the theorems; their preemption is '
                   'only searched (judge-only).',
@@ -33,7 +36,6 @@ META = {
         'attribute names given to start() do not collide with class attributes of StateMachine (otherwise _update_attributes raises inside cycle)',
         'the transition hook does not raise (the hook of HasStates does not, for status codes valid for the module)',
         'final_status is the last action of a function that calls it',
-        'state functions carry a __name__ (functools.partial objects as states make _cleanup raise)',
     ],
     'modelled_not_verified': [
         'time (now, delta), log texts, fast-poll switching, poller triggering',
@@ -187,8 +189,15 @@ class Case:
             finish_preempted(self.split_state)
 
 
+_SID = {}       # id(callable) -> number, for state functions that carry no __name__
+
+
 def sid_of(func):
-    return None if func is None else int(func.__name__.split('_')[1])
+    if func is None:
+        return None
+    if id(func) in _SID:
+        return _SID[id(func)]
+    return int(func.__name__.split('_')[1])
 
 
 # ---- a second real thread that executes a request while the cycle thread waits -------------------
@@ -222,6 +231,9 @@ def start_preempted(fn, line):
         if event == 'line':
             count[0] += 1
             if count[0] == line:
+                import linecache
+                text = linecache.getline(frame.f_code.co_filename, frame.f_lineno).strip()
+                st['site'] = '%s:before:%s' % (frame.f_code.co_name, text.split('#')[0].strip()[:60].strip())
                 st['paused'].set()
                 if not st['resume'].wait(20):
                     raise TimeoutError('never resumed')
@@ -432,6 +444,10 @@ def get_classes():
 
     global RAW_STATES, RAW_CLEAN
     RAW_STATES = [raw_state(i) for i in range(NSTATES)]
+    # the bare machine accepts any callable as a state: state 3 is a functools.partial (no __name__)
+    import functools
+    RAW_STATES[3] = functools.partial(RAW_STATES[3])
+    _SID[id(RAW_STATES[3])] = 3
     RAW_CLEAN = [raw_clean(i) for i in range(NCLEAN)]
 
     def raw_hook(sm, newstate):
@@ -494,6 +510,9 @@ def impl_run(case, choose=None, next_op=None):
             else:
                 c.do_request(op[1])
         c.split_finish()
+        if c.split is not None:
+            # where the request was actually stopped (function and statement), for the signature
+            case['site'] = (c.split_state or {}).get('site', 'not-preempted')
     finally:
         CUR = None
     return c.events, c.errors, c.script, ops
@@ -517,7 +536,7 @@ def judge_req(case, events):
 # ---- generators -------------------------------------------------------------------------------------
 EX_OPS = [['cycle'],
           ['req', ['start', 0, 0, [[0, 1]], None]],
-          ['req', ['start', 1, None, [[0, 2], [1, 5]], None]],
+          ['req', ['start', 3, None, [[0, 2], [1, 5]], None]],
           ['req', ['stop', [100, 'stopped']]]]
 EX_STATE = [{'posts': [], 'fin': None, 'ret': ['next', 1]},
             {'posts': [], 'fin': None, 'ret': 'retry'},
@@ -661,7 +680,7 @@ def features(events):
 def sig_of(case, bad):
     mode = 'hs' if case['hasStates'] else 'raw'
     clause = bad[0][1]
-    return 'C14:%s:%s%s' % (mode, clause, ':preempted-request' if case.get('split') else '')
+    return 'C14:%s:%s%s' % (mode, clause, (':preempted:' + case.get('site', '?')) if case.get('split') else '')
 
 
 def check_cases(ctx, res, batch, label, compare=True):
